@@ -83,6 +83,13 @@ func init() {
 		vrt.Log(evEnd, 3, hOnceCounter)
 		return float64(hOnceCounter), nil
 	})
+	// HNILONCE(): called for its side effect, returns NULL
+	genql.RegisterFunction("hnilonce", func(q *genql.Query, cur genql.Map, fo *genql.FunctionOptions, args []any) (any, error) {
+		vrt.Log(evStart, 8, 0)
+		vrt.Yield()
+		vrt.Log(evEnd, 8, 0)
+		return nil, nil
+	})
 }
 
 type c14item struct {
@@ -92,6 +99,7 @@ type c14item struct {
 	mul    func(x float64) any
 	waited bool // must have completed when Exec returns
 	once   bool
+	null   bool // the function returns NULL
 }
 
 var c14Items = []c14item{
@@ -102,6 +110,7 @@ var c14Items = []c14item{
 	{sql: "SPINASYNC.HSLOW(%s)", fn: 1, waited: true},
 	{sql: "SPIN.HSPIN(%s)", fn: 5},
 	{sql: "ONCE.HONCE() AS o", col: "o", fn: 3, waited: true, once: true},
+	{sql: "ONCE.HNILONCE() AS z", col: "z", fn: 8, waited: true, once: true, null: true},
 	{sql: "ASYNC.HMID(%s) AS m", col: "m", fn: 4, mul: func(x float64) any { return x + 100 }, waited: true},
 	// calls that fail on some rows (the error goes to the UnReportedErrors handler): the query still
 	// returns, every call was invoked once and has completed, the failing row's column is NULL
@@ -311,6 +320,8 @@ func (p *c14) expected(c *c14case) []string {
 			case it.col == "":
 			case it.col == "id":
 				row["id"] = id
+			case it.null:
+				row[it.col] = nil
 			case it.once:
 				row[it.col] = 1.0
 				if c.form == 3 {
@@ -514,7 +525,7 @@ func (p *c14) RunCase(i int) *core.CaseResult {
 
 func (p *c14) Meta() core.Meta {
 	return core.Meta{
-		Rule: "one case per (select list of 1-2 (thorough 3) distinct items over {id, HSLOW, ASYNC.HSLOW, ASYNC.HFAST, SPINASYNC.HSLOW, SPIN.HSPIN, ONCE.HONCE, ASYNC.HMID, ASYNC.HFAILODD, SPINASYNC.HPANICODD, ASYNC.HPANICODD (calls that fail or panic on odd rows)}, form in {direct, derived table, CTE, row-scoped subquery, nested FROM (array of arrays), derived table as join side}, 0-2 (thorough 3) rows) plus immediate functions under ASYNC/SPIN/SPINASYNC (built-in ones and one registered after queries have already run); each case = stateless exploration of every schedule with <= 2 (thorough 3) preemptions of the real engine (library go statements, mutex / wait-group operations and the harness functions' latency points are scheduling points); oracle on every schedule from the event log and the result. non-trivial = more than one schedule was executed",
+		Rule: "one case per (select list of 1-2 (thorough 3) distinct items over {id, HSLOW, ASYNC.HSLOW, ASYNC.HFAST, SPINASYNC.HSLOW, SPIN.HSPIN, ONCE.HONCE, ONCE.HNILONCE (returns NULL), ASYNC.HMID, ASYNC.HFAILODD, SPINASYNC.HPANICODD, ASYNC.HPANICODD (calls that fail or panic on odd rows)}, form in {direct, derived table, CTE, row-scoped subquery, nested FROM (array of arrays), derived table as join side}, 0-2 (thorough 3) rows) plus immediate functions under ASYNC/SPIN/SPINASYNC (built-in ones and one registered after queries have already run); each case = stateless exploration of every schedule with <= 2 (thorough 3) preemptions of the real engine (library go statements, mutex / wait-group operations and the harness functions' latency points are scheduling points); oracle on every schedule from the event log and the result. non-trivial = more than one schedule was executed",
 		Assumptions: []string{
 			"harness functions are deterministic and model latency only by yielding to the scheduler; their results do not depend on the schedule",
 			"scheduling points at sync operations, go statements, thread exit and harness yields (sufficient for race-free executions, DRF-SC; races are C13's matter)",
